@@ -566,11 +566,7 @@ def _check_api(ctx, case, answers):
             prefix = build_pipe(concat(src[:k + 1]), case["pipe"])
             got = canon_result(t, impl["results"][k])
             if len(prefix) == 0:
-                ctx.count("oracle:no-row-prefix")
-                if isinstance(got, tuple):
-                    ctx.count("oracle:no-row-prefix:" + got[0] + ":" + str(got[1]))
-                history.append(None)
-                continue
+                ctx.count("oracle:no-row-prefix")        # pandas on nothing: sum 0, count 0, size 0, mean / var / std NaN, empty tables
             if nf and opposite_infinities(prefix, t):
                 # +inf and -inf meet in one reduction: pandas' own answer is the ill-defined inf - inf; no claim
                 ctx.count("nonfinite:no-claim:opposite-infinities")
@@ -752,7 +748,7 @@ def direct_step_impl(name, agg, acc, df, sg, old=False, x=None):
         if acc is None:
             acc = agg.initial(s)
         return agg.on_new(acc, s)
-    except ZeroDivisionError:
+    except ZeroDivisionError:      # (what the unrepaired Var did on Python ints 0 / 0; an observation like any other)
         return None, ("raised", "ZeroDivisionError")
 
 
@@ -838,8 +834,9 @@ def _check_direct(ctx, case, answers):
                 countless_now = True
             else:
                 countless_now = False
-            if rows > 0 and not failed:
-                want = direct_pandas(name, ddof, [frames[j] for j in held])
+            if not failed:
+                # (a prefix / window without rows included: pandas on nothing gives sum 0, count 0, size 0, mean / var NaN, empty tables)
+                want = direct_pandas(name, ddof, [frames[j] for j in held] or [frames[0].iloc[:0]])
                 # after on_old a group key may remain with size 0: compare on pandas' keys only
                 if isinstance(got, dict) and any(o[0] == "old" for o in case["ops"][:i + 1]):
                     got_cmp = {k: v for k, v in got.items() if k in want}
@@ -2201,7 +2198,8 @@ def run(ctx):
         "the synchronous diamond zip of map_partitions pairs the k-th emission of each operand (C01); one aggregation per graph",
         "Series results are compared as finite maps key -> value (index order canonicalised)",
         "Frame has no plain .var()/.std(): var/std over the whole history are reached through Frame.aggregate(Var(ddof)) ** 0.5 and through sdf.expanding().var()/std()",
-        "Var raises ZeroDivisionError while no row has arrived (prefix without rows: no claim); the harness continues past it",
+        "prefixes without any row are judged like every other prefix (pandas on nothing: sum 0, count 0, size 0, mean / var / std NaN, empty tables); "
+        "Var used to raise ZeroDivisionError there on a single column (repaired in /repo 445f1a7; the model no longer has that outcome)",
         "statement programs (kind 'prog'): `sdf[c] = expr` is executed IN PLACE (streamz rebinds sdf.stream / sdf.example) at different "
         "points relative to the creation of derived objects; oracle = pandas executing the same statements in the same order on the "
         "concatenated prefix. Convention (where pandas and the unchanged streamz agree): a groupby OBJECT refers to its frame, so an "
@@ -2220,8 +2218,8 @@ def run(ctx):
         "tree(aggregates of the prefix, rows of batch k); a tree with a streaming leaf is a streaming collection whose outer "
         "sum/count/mean/size after batch k is the pandas aggregation of pd.concat(value_1..value_k); a tree of aggregates only is "
         "an updating collection whose k-th version is compared and whose sum/count/mean reduce that version. Kept out: Var as "
-        "operand or outer aggregation (its ZeroDivisionError on a row-less prefix aborts the emit between the two branches of the "
-        "zip), groupby aggregates against streaming rows (different index), division, boolean labels, unary minus of a comparison "
+        "operand or outer aggregation (not generated: before the repair of Var its ZeroDivisionError on a row-less prefix aborted the emit "
+        "between the two branches of the zip), groupby aggregates against streaming rows (different index), division, boolean labels, unary minus of a comparison "
         "(numpy and pandas reject `-` on booleans)",
         "column labels: a share of the api / direct / program cases (and a corpus) run on frames whose labels are falsy or not strings - "
         "positional ints 0,1,2 (pd.DataFrame(ndarray)), floats 0.0,1.0,2.0, False/True, '' - permuted so that the value column, the by-name "
